@@ -245,6 +245,45 @@ Theorem C15_ssh_auth_forwarded_as_presented : forall accepts attempts,
     else rest = [] /\ Forall (fun x => accepts x = false) tried.
 Proof. exact auth_run_spec. Qed.
 
+(* authentication dialogues of ANY length on one client connection (the initial none
+   request, public-key offers - refused by the proxy itself and recorded -, passwords): as
+   long as the loop has no limit on failed requests (the proxy configures -1) the backend
+   is presented every password the client sends, in order, exactly once; the client is
+   told the backend's verdict for each; every public-key offer is recorded; and the
+   connection stays open until the client is accepted or stops by itself - from any
+   count of earlier failures *)
+Theorem C15_ssh_auth_relayed_all : forall max oracle user reqs fails, max <= 0 ->
+  let o := auth_dialogue max oracle user fails reqs in
+  let sent := client_sends oracle user reqs in
+  au_saw o = creds_of user sent /\
+  au_verdicts o = map (backend_verdict oracle user) sent /\
+  au_pk o = pubs_of sent /\
+  au_open o = true.
+Proof. intros max oracle user reqs fails H. exact (auth_dialogue_relays_all max oracle user reqs H fails). Qed.
+
+(* ... which is the value the proxy hands to x/crypto/ssh *)
+Theorem C15_ssh_auth_proxy_has_no_limit : PROXY_MAX_AUTH_TRIES <= 0.
+Proof. discriminate. Qed.
+
+(* a dialogue of passwords only is the attempt-by-attempt run of the theorem above *)
+Theorem C15_ssh_auth_dialogue_of_passwords : forall max oracle user pws fails, max <= 0 ->
+  au_saw (auth_dialogue max oracle user fails (map APw pws)) = fst (auth_run oracle (map (pair user) pws)) /\
+  existsb (fun v => match v with VOk => true | _ => false end)
+          (au_verdicts (auth_dialogue max oracle user fails (map APw pws))) = snd (auth_run oracle (map (pair user) pws)).
+Proof. intros max oracle user pws fails H. exact (auth_dialogue_passwords max oracle user pws H fails). Qed.
+
+(* non-vacuity, and what the hypothesis max <= 0 buys: seven rejected passwords and then
+   the accepted one on one connection - all eight reach the backend with the proxy's
+   setting; with a limit of six the seventh and eighth reach nobody *)
+Example C15_ssh_auth_eight_attempts :
+  let reqs := ANone :: map PW [1;2;3;4;5;6;7;8]%N in
+  client_sends ORACLE_LAST [114]%N reqs = reqs /\
+  au_saw (auth_dialogue PROXY_MAX_AUTH_TRIES ORACLE_LAST [114]%N 0 reqs) = creds_of [114]%N reqs /\
+  au_saw (auth_dialogue 6 ORACLE_LAST [114]%N 0 reqs) = creds_of [114]%N (firstn 7 reqs) /\
+  au_verdicts (auth_dialogue 6 ORACLE_LAST [114]%N 0 reqs) = [VFail; VFail; VFail; VFail; VFail; VFail; VFail; VClosed; VClosed] /\
+  au_open (auth_dialogue 6 ORACLE_LAST [114]%N 0 reqs) = false.
+Proof. exact auth_limit_example. Qed.
+
 (* for every interleaving of the request-relaying and the data-relaying goroutine: the
    backend receives the channel requests in order and unchanged, the data stream in order
    and unchanged, and nothing is lost or duplicated *)
@@ -303,6 +342,9 @@ Print Assumptions C15_dns_read_msg_all_segmentations.
 Print Assumptions C15_dns_stream_relayed.
 Print Assumptions C15_dns_stream_rejects_non_dns.
 Print Assumptions C15_ssh_auth_forwarded_as_presented.
+Print Assumptions C15_ssh_auth_relayed_all.
+Print Assumptions C15_ssh_auth_proxy_has_no_limit.
+Print Assumptions C15_ssh_auth_dialogue_of_passwords.
 Print Assumptions C15_ssh_relay_order.
 Print Assumptions C15_ssh_cross_order_not_kept.
 Print Assumptions C15_ssh_close_delivers_all.
